@@ -13,7 +13,8 @@ DRIVER = "drv_c01"
 TRUSTED = [
     "hand-written model lean/CogentModel/Model/View.lean of SliceRecordABC/SeqView arithmetic "
     "(tied by exhaustive-box + random correspondence against sequence.SeqView, new_sequence.SeqView, new_alignment.SeqDataView)",
-    "Spec/PySlice.lean (slice.indices + range), validated against CPython str slicing each run",
+    "Spec/PySlice.lean (slice.indices + range, index), validated against CPython str slicing/indexing each run; "
+    "the plain-string side of the chain theorem (SeqWrap.specRun) is validated against CPython str operations (specchain stream)",
 ]
 ASSUMPTIONS = [
     "Sequence wrapper: __str__/__len__/__getitem__/rc are modelled in lean/CogentModel/Model/SeqWrap.lean (tied by the seqchain correspondence stream "
@@ -279,6 +280,19 @@ def correspondence(ctx):
         if want != mod:
             add_failure(out, "corr", "Spec.PySlice differs from CPython", dict(n=n, a=a, b=b, c=c), want, mod, confirmed=False)
     bump(out, "pyslice_vs_cpython", len(sp))
+    # the spec's `xs[i]` (PySlice.index) against CPython str indexing, exhaustive small box
+    ix = [(t, i) for t in ("", "a", "ab", "abcde", "ACGGTAAC") for i in range(-10, 11)]
+    for (t, i), mod in zip(ix, ctx.driver.batch([("pyindex", dict(s=t, i=i)) for t, i in ix])):
+        out["evaluations"] += 1
+        try:
+            want = t[i]
+        except IndexError:
+            want = {"err": "IndexError"}
+        if want != mod:
+            add_failure(out, "corr", "Spec.PySlice.index differs from CPython", dict(s=t, i=i), want, mod, confirmed=False)
+    bump(out, "pyindex_vs_cpython", len(ix))
+    # the plain-string side of seq_chain_spec (SeqWrap.specRun) against CPython str operations
+    _spec_chain_corr(ctx, out)
     # the Sequence wrapper model (string level) against real old-/new-style sequences
     _seq_chain_corr(ctx, out)
     diff = _ast_same()
@@ -323,6 +337,57 @@ def _real_comp_table(kind, moltype):
 def _seq_state(seq):
     v = seq._seq
     return dict(str=str(seq), len=len(seq), start=v.start, stop=v.stop, step=v.step, seq_len=v.seq_len, parent=v.seq)
+
+
+def _spec_chain_corr(ctx, out):
+    """SeqWrap.specRun (the spec side of theorem seq_chain_spec) vs the same chain of CPython str operations"""
+    rng = ctx.subrng("specchain")
+    comp = {"A": "T", "T": "A", "C": "G", "G": "C", "R": "Y", "Y": "R", "K": "M", "M": "K"}
+    tr = str.maketrans(comp)
+    cases = []
+    small = [None, -7, -3, -1, 0, 1, 3, 7]
+    for a, b, c in itertools.product(small, small, [None, 1, 2, -1, -2]):
+        cases.append((True, "ACGTRA", [["s", a, b, c]]))
+        cases.append((False, "ACGTRA", [["s", a, b, c]]))
+    for i in range(-8, 9):
+        cases.append((True, "ACGTRA", [["rc"], ["i", i]]))
+    for _ in range(ctx.budget(2000, 20000)):
+        nucleic = rng.random() < 0.7
+        n = rng.choice([0, 1, 2, 3, 7, 12, 30]) if rng.random() < 0.6 else rng.randint(0, 40)
+        text = "".join(rng.choice("ACGTRYKMN-") for _ in range(n))
+        ops = []
+        for _ in range(rng.randint(1, 7)):
+            if nucleic and rng.random() < 0.2:
+                ops.append(["rc"])
+            else:
+                op = _rand_op(rng, n)
+                if op[0] == "s" and op[3] == 0:
+                    op[3] = None
+                ops.append(op)
+        cases.append((nucleic, text, ops))
+    model = ctx.driver.batch([("specchain", dict(parent=t, nucleic=nuc, comp=comp, ops=ops)) for nuc, t, ops in cases])
+    for (nuc, t, ops), mod in zip(cases, model):
+        out["evaluations"] += 1
+        cur = t
+        try:
+            for op in ops:
+                if op[0] == "s":
+                    cur = cur[slice(op[1], op[2], op[3])]
+                    if nuc and (op[3] or 1) < 0:
+                        cur = cur.translate(tr)
+                elif op[0] == "i":
+                    cur = cur[op[1]]
+                else:
+                    cur = cur[::-1].translate(tr)
+            want = cur
+        except IndexError:
+            want = {"err": "IndexError"}
+        if want != mod:
+            add_failure(out, "corr", "SeqWrap.specRun differs from CPython str operations", dict(nucleic=nuc, parent=t, ops=ops, stream="specchain"), want, mod, confirmed=False)
+        else:
+            bump(out, "specchain_final", "raises" if isinstance(want, dict) else ("nonempty" if want else "empty"))
+            if isinstance(want, dict) or want:
+                out["nontrivial"].add(("specchain", nuc, t, str(ops)))
 
 
 def _seq_chain_corr(ctx, out):
